@@ -6,7 +6,7 @@ cd /repo || exit 2
 if ! git diff --quiet; then echo "/repo has uncommitted changes; refusing"; exit 2; fi
 git apply /verif/seeded/$S/patch.diff 2>/dev/null || { git apply -3 /verif/seeded/$S/patch.diff >/dev/null 2>&1 && git reset -q; } || { echo "patch does not apply"; git checkout -- .; exit 2; }
 cd /verif
-./check.py $P --tier $T > /tmp/seeded_${S}_$P.log 2>&1
+VERIF_EVIDENCE_DIR=/tmp/seeded_evidence ./check.py $P --tier $T > /tmp/seeded_${S}_$P.log 2>&1
 rc=$?
 git -C /repo checkout -- .
 echo "$S vs $P ($T): exit $rc  $(grep -c '^VIOLATION' /tmp/seeded_${S}_$P.log) violation line(s)"
